@@ -10,11 +10,15 @@ import (
 // verifShape builds a message of an arbitrary shape.
 func verifShape(tag string, callID json.RawMessage) *Message {
 	m := &Message{Version: Version}
-	switch verifapi.Choose(tag+".id", 3) {
+	switch verifapi.Choose(tag+".id", 5) {
 	case 0:
 		m.ID = callID
 	case 1:
 		m.ID = json.RawMessage("99")
+	case 3:
+		m.ID = json.RawMessage("-3") // ids are strings or numbers: also negative ones (the client's counter wraps)
+	case 4:
+		m.ID = json.RawMessage("2.5e3")
 	default: // no id
 	}
 	switch verifapi.Choose(tag+".request", 3) {
